@@ -284,6 +284,10 @@ class Generator:
             if not f.has_body:
                 raise LostAnchor(f'fn {it.key} has no body')
             sig, body, impl, modpath = list(f.sig), list(f.body), f.impl, f.modpath
+            if f.outer and f.impl is None:
+                # R7: a free fn hoisted out of a method body is called unqualified from that method,
+                # so it must live where the impl blocks are emitted (crate root), not in the source module
+                modpath = ()
         elif e.kind == 'struct':
             l = self.x.structs.get(it.key.replace(' ', ''), [])
             if len(l) != 1:
